@@ -52,6 +52,12 @@ def cases(ctx, tier, seed, kill=False, n=30):
             force_last = False
             if not kill and i < 3: tname = 'complete-plus-tail'
             if kill and i < 4: tname = 'garbage-long'; force_last = True
+            # ... and for a pre-existing longer target killed while the HEADER is being stored (between the write of the lead and the
+            # write of the rest of the header): the restart finds the new lead followed by old bytes
+            force_early = None
+            if kill and 4 <= i < 10:
+                tname = rnd.choice([t for t in ('garbage-long', 'old-A', 'complete-plus-tail') if t in tg])
+                force_early = (1 + (i - 4) % 3, '0a'[(i - 4) // 3])
             tb = tg[tname]
             m = rnd.choice([1, 2, 3, 10 ** 9, 10 ** 9])
             srv = server(m)
@@ -74,6 +80,7 @@ def cases(ctx, tier, seed, kill=False, n=30):
                 if w < 1: continue
                 k = rnd.randrange(1, w + 1); part = rnd.choice('0ha')
                 if force_last: k = w; part = 'a'
+                if force_early and force_early[0] <= w: k, part = force_early
                 r0 = _run(cmd, cwd=cwd, capture_output=True, timeout=60,
                                     env=dict(env, LD_PRELOAD=so, KILL_PATH=tp, KILL_K=str(k), KILL_PART=part))
                 killed = ' killed=%d:%s:%d' % (k, part, r0.returncode)
